@@ -631,12 +631,14 @@ func (dhs distributedSolver) Present(ctx context.Context, chal acme.Challenge) e
 		return err
 	}
 
-	err = dhs.storage.Store(ctx, dhs.challengeTokensKey(challengeKey(chal)), infoBytes)
-	if err != nil {
-		return err
-	}
+	// even if the token cannot be stored, present with the embedded solver: CleanUp
+	// is called for every Present, failed or not, and the embedded solvers count them
+	storeErr := dhs.storage.Store(ctx, dhs.challengeTokensKey(challengeKey(chal)), infoBytes)
 
 	err = dhs.solver.Present(ctx, chal)
+	if storeErr != nil {
+		return storeErr
+	}
 	if err != nil {
 		return fmt.Errorf("presenting with embedded solver: %v", err)
 	}
@@ -654,11 +656,14 @@ func (dhs distributedSolver) Wait(ctx context.Context, challenge acme.Challenge)
 // CleanUp invokes the underlying solver's CleanUp method
 // and also cleans up any assets saved to storage.
 func (dhs distributedSolver) CleanUp(ctx context.Context, chal acme.Challenge) error {
-	err := dhs.storage.Delete(ctx, dhs.challengeTokensKey(challengeKey(chal)))
-	if err != nil {
-		return err
+	// cleanup is often performed because the context was canceled, and storage
+	// implementations honor cancellation; cleanup must always occur, in both places
+	deleteErr := dhs.storage.Delete(context.WithoutCancel(ctx), dhs.challengeTokensKey(challengeKey(chal)))
+
+	err := dhs.solver.CleanUp(ctx, chal)
+	if deleteErr != nil {
+		return deleteErr
 	}
-	err = dhs.solver.CleanUp(ctx, chal)
 	if err != nil {
 		return fmt.Errorf("cleaning up embedded provider: %v", err)
 	}
